@@ -9,7 +9,7 @@ from trie.iter import NodeIterator
 from ..hexcommon import item_lists, keyspecs, literal_keys, lookup_keys, resolve_key, resolve_val, valspecs
 from ..ref.mpt import RefTrie
 from ..ref.rlp_hp import rlp_encode
-from ..util import Info, expect, expect_eq, impl, nibbles_of
+from ..util import Info, cm_enter, cm_exit, expect, expect_eq, impl, nibbles_of
 from .c01 import UNIVERSE
 
 ID = "C10"
@@ -25,7 +25,8 @@ RULE = (
     "model, k > q) or None for every query, next() == min(model) or None; nodes() == the "
     "reference trie's preorder (prefix and RLP body, parents first, children left to "
     "right; for the empty trie [] or [((), blank)]) and each yielded node == "
-    "traverse(prefix). Exhaustive part: all 64 subsets of a 6-key prefix-closed universe "
+    "traverse(prefix); the same NodeIterator object is observed again after later direct "
+    "ops / a committed batch on its trie. Exhaustive part: all 64 subsets of a 6-key prefix-closed universe "
     "x 11 queries. Non-trivial = >=3 keys with a proper-prefix pair and a query strictly "
     "between two stored keys that is not stored itself. Distinct = canonical JSON."
 )
@@ -47,6 +48,8 @@ def strategy(tier):
             "items": item_lists(tier, 0, n_items),
             "deletes": st.lists(st.integers(0, 40), max_size=3),
             "queries": st.lists(keyspecs(tier, near_weight=6), max_size=6),
+            "later": st.one_of(st.just([]), item_lists(tier, 1, 3)),
+            "later_batch": st.booleans(),
         }
     )
 
@@ -77,9 +80,34 @@ def run_case(case):
             k = sorted(model)[i % len(model)]
             impl("delete-never-raises", t.delete, k)
             del model[k]
+    it = impl("construct", NodeIterator, t)
+    facts = _observe(t, it, model, case, info)
+    # the SAME iterator object must keep describing the trie after the trie changed
+    later = case.get("later") or []
+    if later:
+        cm = target = None
+        if case.get("later_batch"):
+            cm = impl("squash_changes", t.squash_changes)
+            target = cm_enter("squash_changes", cm)
+        for k, vs in later:
+            v = resolve_val(vs, k)
+            impl("set-never-raises", (target or t).set, k, v)
+            model[k] = v
+        if model:
+            k = sorted(model)[len(model) // 2]
+            impl("delete-never-raises", (target or t).delete, k)
+            del model[k]
+        if cm is not None:
+            cm_exit("squash_changes-exit", cm)
+        info.label("reused-iterator-after-" + ("batch" if cm is not None else "direct-ops"))
+        _observe(t, it, model, case, info)
+    info.nontrivial = facts
+    return info
+
+
+def _observe(t, it, model, case, info):
     ref = RefTrie(model)
     expect_eq("root-precondition", bytes(t.root_hash), ref.root_hash, "root (precondition)")
-    it = impl("construct", NodeIterator, t)
     order = sorted(model)
 
     keys = impl("keys", lambda: list(it.keys()))
@@ -126,5 +154,4 @@ def run_case(case):
     info.label("empty-key-stored", b"" in model)
     info.label("query-between", between)
     info.label("embedded-node", any(not n.hashed and n is not ref.root for n in ref.preorder()))
-    info.nontrivial = len(order) >= 3 and has_prefix_pair and between
-    return info
+    return len(order) >= 3 and has_prefix_pair and between
